@@ -1,4 +1,4 @@
 From Coq Require Import Extraction ExtrOcamlBasic List NArith.
 From SV.Ast Require Import Linked Tree Node Search.
 Extraction Language OCaml.
-Separate Extraction get_by_path navigate preorder flatten decode_tree tokens_of unescape match_key run_op mk_value.
+Separate Extraction get_by_path navigate preorder flatten decode_tree tokens_of unescape match_key run_op mk_value preorder_skip flatten_skip skip_of.
